@@ -1425,7 +1425,7 @@ func main() {
 	g := vx.NewRng(r.Seed)
 	N := 1500
 	if r.Thorough() {
-		N = 120000
+		N = 300000
 		maxCoqLen = 4000
 	}
 	for i := 0; i < N; i++ {
